@@ -41,6 +41,7 @@ type World struct {
 }
 
 func loadWorld(repo string) (*World, error) {
+	repoRoot = strings.TrimSuffix(repo, "/")
 	cfg := &packages.Config{
 		Mode:       packages.LoadAllSyntax,
 		Dir:        repo,
